@@ -7,6 +7,7 @@ CONSTANTS
   Messages <- HistMessages
   Servers <- HistServers
   Forms <- McForms
+  Vias <- McDirect
   MaxServes = 3
   Deviation = "first-response-cached"
 INVARIANTS ResponseOfCurrentValue
